@@ -285,21 +285,29 @@ def mk_leapfrog(id_='leapfrog'):
     return LeapfrogIntegrator(id_, 10, 0.01)
 
 
-def mk_adaptive(integrator=None, use_rate=False):
-    return AdaptiveStepSize('ass', integrator or mk_leapfrog(), 0.8, use_acceptance_rate=use_rate)
+def _window(window, shift=0):
+    """window None: the defaults of the class (open ended); (start, end): a finite adaptation window
+    (the bounds may be symbolic ints)"""
+    if window is None:
+        return {}
+    return {'start': window[0] + shift, 'end': window[1] + shift}
 
 
-def mk_dual(integrator=None):
-    return DualAveragingStepSize('dass', integrator or mk_leapfrog(), mu=0.5, delta=0.8)
+def mk_adaptive(integrator=None, use_rate=False, window=None):
+    return AdaptiveStepSize('ass', integrator or mk_leapfrog(), 0.8, use_acceptance_rate=use_rate, **_window(window))
+
+
+def mk_dual(integrator=None, window=None):
+    return DualAveragingStepSize('dass', integrator or mk_leapfrog(), mu=0.5, delta=0.8, **_window(window))
 
 
 def _mass(diag):
     return Parameter('mass', torch.ones(3) if diag else torch.eye(3))
 
 
-def mk_mma(mass=None, diag=True, mode=0):
+def mk_mma(mass=None, diag=True, mode=0, window=None):
     # mode 0: plain, 1: variance_window, 2: swap_every
-    kw = {}
+    kw = _window(window)
     if mode == 1:
         kw['variance_window'] = 1
     elif mode == 2:
@@ -307,19 +315,20 @@ def mk_mma(mass=None, diag=True, mode=0):
     return MassMatrixAdaptor('mma', _params(), mass if mass is not None else _mass(diag), True, **kw)
 
 
-def mk_hmc(diag=True, has_ass=False, has_da=False, has_mma=False, mma_mode=0, id_='hmc'):
+def mk_hmc(diag=True, has_ass=False, has_da=False, has_mma=False, mma_mode=0, id_='hmc', window=None):
+    """window (start, end): the three adaptors get the finite windows [start, end], [start+1, end+1], [start+2, end+2]"""
     integ = mk_leapfrog()
     mass = _mass(diag)
     params = _params()
     adaptors = []
     if has_ass:
-        adaptors.append(mk_adaptive(integ))
+        adaptors.append(mk_adaptive(integ, window=window))
     if has_da:
-        adaptors.append(mk_dual(integ))
+        adaptors.append(DualAveragingStepSize('dass', integ, mu=0.5, delta=0.8, **_window(window, 1)))
     if has_mma:
         adaptors.append(MassMatrixAdaptor('mma', params, mass, True,
-                                          **({'variance_window': 1} if mma_mode == 1 else
-                                             {'swap_every': 5} if mma_mode == 2 else {})))
+                                          **dict({'variance_window': 1} if mma_mode == 1 else
+                                                 {'swap_every': 5} if mma_mode == 2 else {}, **_window(window, 2))))
     return HMCOperator(id_, None, params, integ, mass, 1.0, 0.8, adaptors, acceptance_window_length=3)
 
 
@@ -732,27 +741,49 @@ def case_leapfrog(args, real=False, skip=(), first=True):
     return roundtrip(a, b, real, skip, first)
 
 
+def _win(finite, ws, we):
+    return (ws, we) if finite else None
+
+
+def _owned_first(items_of, owner_items):
+    """state view of an adaptor + what its owner (the HMC operator) restores BEFORE the adaptor is loaded: the
+    adaptor's load_state_dict must leave that alone"""
+    return lambda o: view(o) + owner_items(o)
+
+
 def case_adaptive(args, real=False, skip=(), first=True):
-    cc, accepted, use_rate = args
-    a, b = mk_adaptive(use_rate=use_rate), mk_adaptive(use_rate=use_rate)
+    """window: defaults (open ended) or a finite [ws, we] with symbolic bounds, so that the counter lies before,
+    inside or after it; the integrator both objects share with their owner already holds the restored step size"""
+    cc, accepted, use_rate, finite, ws, we = args
+    w = _win(finite, ws, we)
+    a, b = mk_adaptive(use_rate=use_rate, window=w), mk_adaptive(use_rate=use_rate, window=w)
     a._call_counter = cc
     a._accepted = accepted
-    return roundtrip(a, b, real, skip, first)
+    a._integrator.step_size = b._integrator.step_size = 0.375
+    return roundtrip(a, b, real, skip, first, extra_items=_owned_first(view, lambda o: [
+        ('AdaptiveStepSize', 'integrator.step_size[restored-by-owner]', o._integrator, 'step_size')]))
 
 
 def case_dual(args, real=False, skip=(), first=True):
-    cc, cnt, xkind, f = args
-    a, b = mk_dual(), mk_dual()
+    cc, cnt, xkind, f, finite, ws, we = args
+    w = _win(finite, ws, we)
+    a, b = mk_dual(window=w), mk_dual(window=w)
     # one symbolic float, three distinct values (a swap of two fields is visible for every finite f)
     set_dual(a, cc, cnt, xkind, f, f + 1.0, f + 2.0)
-    return roundtrip(a, b, real, skip, first)
+    a.integrator.step_size = b.integrator.step_size = 0.375
+    return roundtrip(a, b, real, skip, first, extra_items=_owned_first(view, lambda o: [
+        ('DualAveragingStepSize', 'integrator.step_size[restored-by-owner]', o.integrator, 'step_size')]))
 
 
 def case_mma(args, real=False, skip=(), first=True):
-    cc, samples, diag, mode, nvals, samples2 = args
-    a, b = mk_mma(diag=diag, mode=mode), mk_mma(diag=diag, mode=mode)
+    cc, samples, diag, mode, nvals, samples2, finite, ws, we = args
+    w = _win(finite, ws, we)
+    a, b = mk_mma(diag=diag, mode=mode, window=w), mk_mma(diag=diag, mode=mode, window=w)
     set_mma(a, cc, samples, nvals, samples2)
-    return roundtrip(a, b, real, skip, first)
+    set_mass(a, diag)
+    set_mass(b, diag)
+    return roundtrip(a, b, real, skip, first, extra_items=_owned_first(view, lambda o: [
+        ('MassMatrixAdaptor', 'mass_matrix.tensor[restored-by-owner]', o._mass_matrix, 'tensor')]))
 
 
 def _inject_hmc(a, diag, adapt, acc, rej, w0, nw, steps, snum, cc1, accd, cc2, cnt, cc3, samples):
@@ -773,8 +804,8 @@ def _inject_hmc(a, diag, adapt, acc, rej, w0, nw, steps, snum, cc1, accd, cc2, c
 def case_hmc(diag, args, real=False, skip=(), first=True):
     """HMCOperator with every subset of {AdaptiveStepSize, DualAveragingStepSize, MassMatrixAdaptor} and a
     diagonal or dense mass matrix (the adaptors' own configuration space is covered by their own cases)."""
-    (has_ass, has_da, has_mma, *rest) = args
-    kw = dict(diag=diag, has_ass=has_ass, has_da=has_da, has_mma=has_mma, mma_mode=0)
+    (has_ass, has_da, has_mma, *rest, finite, ws, we) = args
+    kw = dict(diag=diag, has_ass=has_ass, has_da=has_da, has_mma=has_mma, mma_mode=0, window=_win(finite, ws, we))
     a, b = mk_hmc(**kw), mk_hmc(**kw)
     _inject_hmc(a, diag, *rest)
     return roundtrip(a, b, real, skip, first)
@@ -783,8 +814,9 @@ def case_hmc(diag, args, real=False, skip=(), first=True):
 def case_mcmc(args, real=False, skip=(), first=True):
     """MCMC over Scaler + SlidingWindow + Dirichlet + GMRF block operators, optionally plus an HMC operator
     carrying all three adaptors."""
-    (epoch, with_hmc, tnum, adapt, acc, rej, w0, w1, w2, nw, steps, snum, cc1, accd, cc2, cnt, cc3, samples) = args
-    kw = dict(diag=True, has_ass=True, has_da=True, has_mma=True, mma_mode=0)
+    (epoch, with_hmc, tnum, adapt, acc, rej, w0, w1, w2, nw, steps, snum, cc1, accd, cc2, cnt, cc3, samples, finite, ws,
+     we) = args
+    kw = dict(diag=True, has_ass=True, has_da=True, has_mma=True, mma_mode=0, window=_win(finite, ws, we))
     a, b = mk_mcmc(with_hmc, **kw), mk_mcmc(with_hmc, **kw)
     a._epoch = epoch
     k = 0
